@@ -26,6 +26,10 @@ CLAIMED = {
  "C13": ("proof", "Abacus algorithm: C13_abacus_acc/real/square/mono/zero/neg for ALL inputs 0 <= v < 2^48 and all negatives, by the loop invariant (induction on the digit position) "
          "including absence of uint64 wrap-around; the result is exactly floor(sqrt(v*2^16)). std::sqrt algorithm: PARTIAL - the accuracy theorem over the IEEE model (C13_std_full) is stated, not proved; "
          "that back-end is tied by bit-exact correspondence (perfect squares +-1, midpoints k^2+k, powers of two, stratified random) of the Lean IEEE-754 model with the hardware.", "loop invariant by induction + nlinarith/omega; correspondence on both back-ends"),
+ "C09": ("proof", "C09_sin_acc / C09_cos_acc: for EVERY raw v in [-2pi, 2pi] (823 549 values) the model's result is within 4 ulp + |arcsin(sin x)|^9/9! of Real.sin (Mathlib) - "
+         "analytic range reduction for all arguments (omega), kernel-checked enumeration (52 decide+kernel chunks, no native_decide) of the polynomial at all 205 887 reduced arguments against a "
+         "degree-15 Taylor enclosure of Real.sin derived from Complex.exp_bound', and the real-analysis glue (sin(x+n*pi), Lipschitz, arcsin o sin, bounds on pi). C09_range and C09_periodic for every |v| < 2^62 and every integer k. "
+         "Tie: exhaustive correspondence of sin/cos on [-2pi-2, 2pi+2] raw (3 build legs) + random/boundary up to 2^62.", "reflective kernel enumeration + Mathlib enclosures + omega; exhaustive correspondence"),
 }
 NA_DEFAULT = "check under construction in this round (the framework is built property by property); not a claim that the technique cannot apply"
 
